@@ -40,6 +40,12 @@ def icell(pid, op, N=2, T=60, **extra):
 def cells(tier):
     T = 60 if tier == 'quick' else 600
     out = make_cells(PID, 'frame', tier)
+    # IDs of one or two characters (one may be a prefix / suffix of another), unknown and existing references
+    pick = lambda op, story_k, tk, sk, nk: story_k in (None, 'existing', 'unknown') and tk in (None, 'existing', 'unknown') \
+        and (sk is None or sk in (['existing'], ['unknown'], ['existing', 'unknown'])) and (nk is None or nk == ['fresh'])
+    out += make_cells(PID, 'frame', tier, N=3, thin=pick, idlen='1-2', suffix='prefix-ids',
+                      ops=['roStoryDelete', 'roStoryReplace', 'roStoryMove', 'roItemDelete', 'roItemReplace', 'EAItemMove',
+                           'EAStoryDelete', 'roItemInsert'])
     for carry in META_CARRIES:
         out.append(mcell(PID, 'frame', carry, T=T))
     out.append(mcell(PID, 'frame', ['metaB'], T=T, n_meta=1))
